@@ -103,6 +103,18 @@ RES = {
  "C10-F": ("C10", "caught by quick C10 (hang:DB.OpenTransaction, hang:DB.CompactRange/Write/putRec), quick C09 and quick C18; it is the same change as C18-C, found independently", "missed at first by C10: 15% of concurrent C09/C10 cases now have one client call SetReadOnly among the writers, half of them while a flush is failing and being retried"),
  "C11-E": ("C11", "caught by quick C11 (txiter:mismatch, tx-open-err); it is the same change as C01-F, found independently", ""),
  "C11-F": ("C11", "caught by quick C11 (txiter:mismatch, files-residue:extra:table)", ""),
+ "C12-E": ("C12", "caught by quick C12 (journal:invented)", "missed at first: needs a Reader reused through Reset; 40% of the journal cases now read the intact stream first and Reset the same Reader onto the stream under test, as recovery does for the second and later journals"),
+ "C12-F": ("C12", "caught by quick C12 (journal:reset-lost)", "missed at first: needs Writer.Reset with buffered records; 30% of the journal cases now Reset the Writer onto fresh streams at seeded points and require every earlier stream to read back exactly"),
+ "C13-E": ("C13", "caught by quick C13 (table:find-filtered); it is the same change as C16-C, found independently", "missed at first by C13 (quick C16 catches it): the table component looked keys up without the filter only; now Find/FindKey through the filter must return every stored key"),
+ "C13-F": ("C13", "caught by quick C13 (table:panic)", ""),
+ "C14-E": ("C14", "caught by quick C14 (memdb:iter-mismatch)", ""),
+ "C14-F": ("C14", "caught by quick C14 (memdb:len-size)", ""),
+ "C16-E": ("C16", "caught by quick C16 and quick C19 (recover:lost-undamaged); it reverts the filter half of fix f3820b8", "missed at first by C16 (quick C19 caught it): 10% of C16 cases now lose the manifest, damage table blocks and run Recover under a filter policy"),
+ "C16-F": ("C16", "caught by quick C16 and quick C03 (snapget:mismatch, snapget:has-mismatch)", "missed at first by C16 (quick C03 caught it): C16 programs had no snapshots, so no read ever selected an older version of a key; they have now"),
+ "C17-E": ("C17", "caught by quick C17 (cache:dead-value-held, cache:finalized-with-handles); it removes the re-check added by fix 722850a", ""),
+ "C17-F": ("C17", "caught by quick C17 (cache:leak, cache:over-capacity)", ""),
+ "C20-E": ("C20", "caught by quick C20 (wgroup:ack-before-log, arg-modified:batch-retained), quick C10 and quick C05", "missed at first by C20 (quick C10 and C05 caught it): concurrent C20 cases now reuse their batch the moment Write returns (a poison record that must never reach the DB), check that an acknowledged batch is in the journal already, issue most writes through Write and mostly run in storm mode (40% of C20 cases are concurrent)"),
+ "C20-F": ("C20", "caught by quick C02 and quick C11 (txiter:mismatch, txiter:error); it is the same change as C02-D. C20's own check sees the mismatch too but does not report it: its twin run without scribbling fails in the same way, and the pair the iterator exposes stays intact, so the statement of C20 is not what breaks", ""),
  "C18-E": ("C18", "caught by quick C18 (closed:race-get-notfound)", "missed at first: a Get racing Close was allowed to report not-found; now a key that is certainly present when the race starts (the racing clients only put) must be found or the closed error returned, for Get, Has, Snapshot.Get and Snapshot.Has"),
  "C18-F": ("C18", "caught by quick C18 (readonly-mutate:fs:removed, readonly-mutate:fs:created)", "missed at first: the change is in file_storage.go, which the simulated disk replaces; added the ro-fs scenario (the settled image laid out in a real scratch directory with crash leftovers, read-only OpenFile + Open, directory compared entry by entry)"),
  "C19-E": ("C19", "caught by quick C19 (scan:mismatch, lsm:level-seq); it is the same change as C06-E, found independently", ""),
